@@ -9,6 +9,7 @@ from pyModeS import py_common
 from ref import crc24
 from ref.frames import tohex
 from vlib import gen
+from vlib import volume
 from vlib.core import Leg, call
 
 PROPERTY = "C01"
@@ -17,7 +18,7 @@ RULE = ("frames of 56/112 bits (uniform, all-0/all-1, sparse, dense, the suite's
         "linearity; direct error injection (all weight<=3 patterns, all bursts <=12 at every offset, sampled weight 4-5 "
         "and bursts 13-24) on valid frames; syndrome closure: no 1..5 single-bit syndromes of the implementation XOR to 0. "
         "non-trivial = frame not all-zero (and, for error cases, the error touches the data field); distinct by case hash"
-        ' Also: 2000 real DF17 frames (leg corpus), replacement parity fields copied from the data part, keyword and positional encode flag, four concurrent callers (leg threads).')
+        ' Also: 2000 real DF17 frames (leg corpus), replacement parity fields copied from the data part, keyword and positional encode flag, four concurrent callers (leg threads), 140 000 / 1.3 million distinct frames in a row in one process (leg volume).')
 ASSUMPTIONS = ["hex strings of exactly 14 or 28 digits",
                "completeness of the weight<=5 detection claim over all frames rests on implementation linearity, which is sampled (leg linearity)"]
 
@@ -298,7 +299,25 @@ def chk_threads(case, note):
     return p
 
 
+
+# ---------------------------------------------------------------- volume: one process, very many distinct frames
+def vol_step(a, b, k):
+    n = 112 if a & 1 else 56
+    v = ((a << 64) | b) >> (128 - n)
+    m = "%0*X" % (n // 4, v)
+    if a & 2:
+        m = m.lower()
+    if a & 4:
+        got, exp, what = call(pms.crc, m, True), crc24.parity(v >> 24, n - 24), "crc(%s, True)" % m
+    else:
+        got, exp, what = call(pms.crc, m), crc24.remainder(v, n), "crc(%s)" % m
+    if got != ("ok", exp):
+        return "%s = %r, reference remainder = %06X" % (what, got, exp)
+    return None
+
+
 LEGS = [
+    volume.leg(vol_step, 140000, 1300000, "140 000 (thorough: 1.3 million per process) distinct random frames through crc() in one process, each against the reference division"),
     Leg("threads", chk_threads, enum=enum_threads, shards_quick=4, shards_thorough=8, doc="concurrent callers of crc() with a 1 us switch interval"),
     Leg("corpus", chk_corpus, enum=enum_corpus, exhaustive=True, doc="2000 real DF17 frames from the repository's sample data: remainder 0 under the reference and both implementations"),
     Leg("three_way", chk_three_way, strategy=s_frame, quick=24000, thorough=800000,
